@@ -15,6 +15,7 @@ DECIDED = [
     "C09.2 bridging sites: on resolution, for fresh clones, all-pairs in the update tool",
     "C09.3 readiness/pick predicates and involved workers read the aliased registers (sibling agreement)",
     "C09.4r/4p restrictions accumulate alike on nodes and objects (whole-line duplicate test); parents are looked up / parsed the same way whatever is already cached",
+    "C09.9 parsing helpers never write restrictions/parameters/objects of the (shared) nodes and objects they are given",
     "C09.4 single parsing entry point for lazy and eager expansion; lazy expansion condition; validate() at both sites",
 ]
 NOT_DECIDED = ["equivalence of per-worker subgraphs", "equality of lazy and eager results", "determinism across runs", "that workers together expand every compatible test"]
@@ -39,12 +40,15 @@ def run(ctx):
     ctx.call(GR.flat_expansion, "7")
     ctx.call(GR.lazy_eager_details, "8")
     ctx.call(GR.dependency_table, "4t")
+    ctx.call(GR.parse_inputs_readonly, "9")
 
 
 NODE = "cartgraph/node.py"
 G = "cartgraph/graph.py"
 I = "intertest_setup.py"
 MUTANTS = [
+    ("node-takes-worker-restrictions", "cartgraph/graph.py", "            filtered_vms = self.get_objects_by_restr(\n                test_node.restrs.get(vm_name, \"\"), subset=filtered_vms\n            )",
+     "            test_node.update_restrs({vm_name: test_object.restrs.get(vm_name, \"\")})\n            filtered_vms = self.get_objects_by_restr(\n                test_node.restrs.get(vm_name, \"\"), subset=filtered_vms\n            )", "9"),
     ("bridged-form-flat-composite-swapped", "cartgraph/node.py", "        if len(self.objects) == 0:\n            return self.setless_form\n        # TODO: the long suffix", "        if len(self.objects) != 0:\n            return self.setless_form\n        # TODO: the long suffix", "5nb"),
     ("unrolled-for-other-workers-child", "cartgraph/node.py", "                if worker and worker.id in node.id:\n                    return True", "                if worker and worker.id not in node.id:\n                    return True", "4lu"),
     ("unrolled-when-compatible", "cartgraph/node.py", "        elif worker and worker.net.long_suffix in self.incompatible_workers:\n            return True", "        elif worker and worker.net.long_suffix not in self.incompatible_workers:\n            return True", "4lu"),
